@@ -59,6 +59,7 @@ def sweep(prop):
     evf = os.path.join(os.environ.get("VERIF_EVIDENCE_DIR") or os.path.join(V, "evidence"), prop + ".json")
     scratch = tempfile.mkdtemp(prefix="nssweep.")
     res = []
+    spec = []
     try:
         for name, pf, props, expect in mutants():
             if prop not in props:
@@ -79,10 +80,33 @@ def sweep(prop):
                 r = sh("%s/bin/nscheck -property %s -tier quick" % (V, prop), env=env)
             caught = r.returncode == 1 and ("VIOLATION property=%s" % prop) in r.stdout and all(e in r.stdout for e in expect)
             res.append({"mutant": name, "result": "caught" if caught else "NOT caught", "expected_report": expect})
+        # specificity: behaviour-preserving variants must leave the check silent
+        for name, pf, props, _ in benign():
+            if prop not in props:
+                continue
+            work = os.path.join(scratch, "repo")
+            shutil.rmtree(work, ignore_errors=True)
+            sh("rsync -a --exclude .git %s/ %s/" % (repo, work))
+            r = sh("patch -p1 --no-backup-if-mismatch < %s" % pf, cwd=work)
+            if r.returncode != 0:
+                spec.append({"variant": name, "result": "skipped: does not apply to the current tree"}); continue
+            r = sh("go build ./... ", cwd=os.path.join(work, "go"))
+            if r.returncode != 0:
+                spec.append({"variant": name, "result": "skipped: does not compile on the current tree"}); continue
+            env = dict(ENV, VERIF_REPO=work, VERIF_EVIDENCE_DIR=os.path.join(scratch, "ev"))
+            if prop == "C19":
+                r = sh("python3 %s/shell/c19.py quick" % V, env=env)
+            else:
+                r = sh("%s/bin/nscheck -property %s -tier quick" % (V, prop), env=env)
+            silent = r.returncode == 0 and "VIOLATION" not in r.stdout
+            spec.append({"variant": name, "result": "silent" if silent else "ALARM"})
     finally:
         shutil.rmtree(scratch, ignore_errors=True)
     try:
         ev = json.load(open(evf))
+        ev["coverage"]["specificity"] = {
+            "what": "behaviour-preserving variants of /repo's current working tree (renamings, respellings, refactorings under which the property still holds) naming this property; 'silent' = the check exits 0 without a VIOLATION line. Informational: does not influence the verdict.",
+            "variants": len(spec), "silent": sum(1 for x in spec if x["result"] == "silent"), "results": spec}
         ev["coverage"]["sensitivity"] = {
             "what": "seeded mutants and independently produced breaking changes naming this property, applied one at a time to a copy of /repo's current working tree; 'caught' = the check exits 1 with a VIOLATION naming the expected rule instance. Informational: does not influence the verdict.",
             "mutants": len(res), "caught": sum(1 for x in res if x["result"] == "caught"), "results": res}
@@ -90,6 +114,7 @@ def sweep(prop):
     except Exception as e:
         print("sweep: cannot update evidence:", e)
     print("sensitivity sweep %s: %d mutants, %d caught, %d skipped" % (prop, len(res), sum(1 for x in res if x["result"] == "caught"), sum(1 for x in res if x["result"].startswith("skipped"))))
+    print("specificity sweep %s: %d benign variants, %d silent" % (prop, len(spec), sum(1 for x in spec if x["result"] == "silent")))
 
 def main():
     if len(sys.argv) == 3 and sys.argv[1] == "--sweep":
